@@ -65,39 +65,44 @@ func c12Multiset(ff []c12Feature, sourceLoose bool) []string {
 // other (sequence coordinates: '>' on residue e-1 of f, '<' on residue e of g, same strand)? For source
 // features any abutting ends count.
 func c12Mergeable(f, g c12Feature) bool {
-	df, dg := den(f.Loc), den(g.Loc)
-	type ps struct {
-		p   int
+	// a cut that falls between two parts leaves the same zero-length site at the end of one fragment and at the
+	// start of the next (the cut witness that C03 also accepts in place of a partial marker)
+	lf, lg := f.Loc, g.Loc
+	if (lf.K == "co") == (lg.K == "co") {
+		if lf.K == "co" {
+			lf, lg = lf.Parts[0], lg.Parts[0]
+		}
+		a, b := lf.leaves(), lg.leaves()
+		if len(a) > 1 && len(b) > 1 && a[len(a)-1].K == "bt" && b[0].K == "bt" && a[len(a)-1].A <= b[0].A {
+			return true
+		}
+	}
+	// part-wise: some contiguous part of f ends, 3'-partial, exactly where a 5'-partial part of g on the same strand starts
+	type sleaf struct {
+		l   Loc
 		rev bool
 	}
-	inF, inG := map[ps]bool{}, map[ps]bool{}
-	for _, e := range df {
-		if !e.Site {
-			inF[ps{e.Pos, e.Rev}] = true
+	var collect func(l Loc, rev bool, out *[]sleaf)
+	collect = func(l Loc, rev bool, out *[]sleaf) {
+		if len(l.Parts) == 0 {
+			*out = append(*out, sleaf{l, rev})
+			return
+		}
+		for _, p := range l.Parts {
+			collect(p, rev != (l.K == "co"), out)
 		}
 	}
-	for _, e := range dg {
-		if !e.Site {
-			inG[ps{e.Pos, e.Rev}] = true
-		}
-	}
-	mf, mg := map[Marker]bool{}, map[Marker]bool{}
-	for _, m := range markers(f.Loc) {
-		mf[m] = true
-	}
-	for _, m := range markers(g.Loc) {
-		mg[m] = true
-	}
-	for k := range inF {
-		// f ends at k.p (its right neighbour k.p+1 is not in f), g starts at k.p+1
-		if inF[ps{k.p + 1, k.rev}] || !inG[ps{k.p + 1, k.rev}] || inG[ps{k.p, k.rev}] {
-			continue
-		}
-		if f.Key == "source" {
-			return true
-		}
-		if mf[Marker{Pos: k.p, Right: true}] && mg[Marker{Pos: k.p + 1}] {
-			return true
+	var xf, xg []sleaf
+	collect(f.Loc, false, &xf)
+	collect(g.Loc, false, &xg)
+	for _, x := range xf {
+		for _, y := range xg {
+			if x.l.K != "rg" || y.l.K != "rg" || x.rev != y.rev || x.l.B != y.l.A {
+				continue
+			}
+			if f.Key == "source" || (x.l.P3 && y.l.P5) {
+				return true
+			}
 		}
 	}
 	return false
@@ -266,57 +271,10 @@ func c12Classify(c c12Case) (bool, []string) {
 	return nt, labels
 }
 
-// reducerFires: would the join reducer (force=false) merge or drop b when pushed after a, by a rule other
-// than "3'-partial meets 5'-partial"? (identical values, sites and points absorbed by a neighbour)
-func reducerFires(a, b Loc) bool {
-	switch a.K {
-	case "bt":
-		return (b.K == "bt" || b.K == "pt" || b.K == "rg") && a.A == b.A
-	case "pt":
-		return (b.K == "bt" && b.A == a.A+1) || (b.K == "pt" && b.A == a.A) || (b.K == "rg" && b.A == a.A)
-	case "rg":
-		return (b.K == "bt" || b.K == "pt") && b.A == a.B
-	}
-	return false
-}
-
 func c12KF(c c12Case, v *Violation) []string {
 	var sigs []string
 	if strings.HasPrefix(v.Kind, "setup-") {
 		return nil
-	}
-	table, sv := c12Input(c)
-	if sv != nil {
-		return nil
-	}
-	in, ok := c12FromGts(table)
-	if !ok {
-		return nil
-	}
-	classes := map[string][]c12Feature{}
-	for _, f := range in {
-		classes[f.class()] = append(classes[f.class()], f)
-	}
-	for _, members := range classes {
-		nco := 0
-		for _, f := range members {
-			if f.Loc.K == "jn" {
-				sigs = append(sigs, "repair-flattens-joined-locations")
-			}
-			if f.Loc.K == "co" {
-				nco++
-			}
-		}
-		if nco >= 2 {
-			sigs = append(sigs, "repair-rejoins-complement-features")
-		}
-		for i, f := range members {
-			for j, g := range members {
-				if i != j && (reducerFires(f.Loc, g.Loc) || fmt.Sprint(f.Loc) == fmt.Sprint(g.Loc)) {
-					sigs = append(sigs, "repair-reduces-distinct-features")
-				}
-			}
-		}
 	}
 	if v.Kind == "restoration" {
 		// a piece whose cut is not witnessed (C03's recorded finding: the site left by a wholly removed part is absorbed
@@ -332,21 +290,6 @@ func c12KF(c c12Case, v *Violation) []string {
 				red, _ := reduceSim(sliceLoc(f.Loc, c.L, a, b))
 				if hasResidue(den(red)) && ((front && !endWitnessed(red, true)) || (back && !endWitnessed(red, false))) {
 					sigs = append(sigs, "cut-site-absorbed-by-neighbour")
-				}
-			}
-		}
-		for _, f := range c.Feats {
-			if f.Loc.hasKind("or") {
-				sigs = append(sigs, "repair-does-not-restore-ordered")
-			}
-			if f.Loc.K == "co" {
-				// a cut complement-strand feature yields two complement fragments
-				for _, k := range c.Cuts {
-					for _, x := range f.Loc.leaves() {
-						if x.K == "rg" && x.A < k && k < x.B {
-							sigs = append(sigs, "repair-rejoins-complement-features")
-						}
-					}
 				}
 			}
 		}
